@@ -128,6 +128,24 @@ def write_container(reader, path, arr, nprng, variant):
     raise ValueError(reader)
 
 
+class NoSeek(io.RawIOBase):
+    """A readable binary stream that cannot seek or tell (a pipe)."""
+
+    def __init__(self, data):
+        self._b = io.BytesIO(data)
+
+    def readable(self):
+        return True
+
+    def seekable(self):
+        return False
+
+    def readinto(self, buf):
+        d = self._b.read(len(buf))
+        buf[:len(d)] = d
+        return len(d)
+
+
 def same(a, b):
     return isinstance(a, np.ndarray) and a.dtype == b.dtype and a.shape == b.shape and a.tobytes() == b.tobytes()
 
@@ -205,6 +223,10 @@ def run(tier, seed):
                             warnings.simplefilter("ignore")
                             if src == "path":
                                 got = util.read_signal(name, **kw2)
+                            elif outcome in ("wav", "sph") and (k + len(shape)) % 2:
+                                # a pipe: the two sequential readers need neither seek nor tell
+                                with open(name, "rb") as f:
+                                    got = util.read_signal(io.BufferedReader(NoSeek(f.read())), **kw2)
                             else:
                                 with open(name, "rb") as f:
                                     got = util.read_signal(f, **kw2)
